@@ -1,6 +1,7 @@
 #!/bin/sh
 # usage: try_patch.sh <patch.diff> <ID> [tier]   - apply a seeded change to /repo, run the check, undo the change
-# prints RESULT <ID> <exit code>; exit code 1 = the check caught the change
+# prints RESULT <ID> <exit code>; exit code 1 = the check caught the change.  The evidence file written by the run on the CHANGED
+# tree is discarded (the committed one is restored).
 p="$1"; id="$2"; tier="${3:-quick}"
 cd /repo || exit 2
 if ! git diff --quiet; then echo "repo dirty, refusing"; exit 2; fi
@@ -8,5 +9,6 @@ git apply "$p" || { echo "patch does not apply"; exit 2; }
 cd /verif && ./check "$id" --tier "$tier" > /verif/.work/try_$id.log 2>&1
 rc=$?
 git -C /repo checkout -- .
+git -C /verif checkout -- evidence/$id.json 2>/dev/null
 grep -E "^VIOLATION|clause=|HELD|VIOLATED|MACHINERY" /verif/.work/try_$id.log | head -8 | cut -c1-300
 echo "RESULT $id $rc"
